@@ -1,21 +1,2 @@
-import OpyVerif.Model.HistProg
-import OpyVerif.Generated.HistProg
-import OpyVerif.Proofs.C19
-/-!
-C19 / C04 about the *translated* `History.get` and `Opytimizer.start`.
--/
-namespace Opy
-
-/-- the translated `get` is the model `get` (checks, their order, the index path, `hstack`) -/
-theorem code_get (records : List Rec) (isTuple : Bool) (index : List Nat) :
-    Gen.getProg.run records isTuple index = some (get records isTuple index) := by
-  rw [Gen.getProg_eq]; exact getProg_is_get records isTuple index
-
-/-- the translated `start` returns the run's history with exactly one more `time` record, the difference of the clock
-    readings taken right before and right after the run -/
-theorem code_start_time (keys : List String) (h : Hist) (t0 t1 : Int) (hk : keys.contains "time" = false) :
-    ∃ h', Gen.startProg.run keys h t0 t1 = some h' ∧ h'.attrs = appendAttr h.attrs "time" (.num (t1 - t0)) := by
-  rw [Gen.startProg_eq]
-  exact ⟨_, startProg_is_startTask keys h t0 t1, startTask_time keys h t0 t1 hk⟩
-
-end Opy
+import OpyVerif.Proofs.HistCodeGet
+import OpyVerif.Proofs.HistCodeStart
